@@ -364,3 +364,103 @@ package tengo
 //@   ensures outofrange: is(index, *Int) && (index.(*Int).Value < 0 || index.(*Int).Value >= n) ==> err == nil && res == UndefinedValue
 //@   ensures cache_kept: o.runeStr == nil || (len(o.runeStr) == spec.nrunes(o.Value)
 //@                     && (forall i in 0..len(o.runeStr) :: o.runeStr[i] == spec.runeat(o.Value, i)))
+
+//@ func (*Array).IndexGet
+//@   props C01 C09
+//@   assigns nothing
+//@   ensures badindex: !is(index, *Int) ==> err == ErrInvalidIndexType
+//@   ensures inrange: is(index, *Int) && 0 <= index.(*Int).Value && index.(*Int).Value < len(o.Value)
+//@              ==> err == nil && res == o.Value[index.(*Int).Value]
+//@   ensures outofrange: is(index, *Int) && (index.(*Int).Value < 0 || index.(*Int).Value >= len(o.Value)) ==> err == nil && res == UndefinedValue
+
+//@ func (*ImmutableArray).IndexGet
+//@   props C01 C09
+//@   assigns nothing
+//@   ensures badindex: !is(index, *Int) ==> err == ErrInvalidIndexType
+//@   ensures inrange: is(index, *Int) && 0 <= index.(*Int).Value && index.(*Int).Value < len(o.Value)
+//@              ==> err == nil && res == o.Value[index.(*Int).Value]
+//@   ensures outofrange: is(index, *Int) && (index.(*Int).Value < 0 || index.(*Int).Value >= len(o.Value)) ==> err == nil && res == UndefinedValue
+
+//@ func (*Bytes).IndexGet
+//@   props C01
+//@   assigns nothing
+//@   ensures badindex: !is(index, *Int) ==> err == ErrInvalidIndexType
+//@   ensures inrange: is(index, *Int) && 0 <= index.(*Int).Value && index.(*Int).Value < len(o.Value)
+//@              ==> err == nil && is(res, *Int) && res.(*Int).Value == int64(o.Value[index.(*Int).Value])
+//@   ensures outofrange: is(index, *Int) && (index.(*Int).Value < 0 || index.(*Int).Value >= len(o.Value)) ==> err == nil && res == UndefinedValue
+
+//@ func (*Error).IndexGet
+//@   props C01
+//@   ensures value: is(index, *String) && index.(*String).Value == "value" ==> err == nil && res == o.Value
+//@   ensures other: is(index, *String) && index.(*String).Value != "value" ==> err == ErrInvalidIndexOnError
+
+//@ func (*Undefined).IndexGet
+//@   props C01
+//@   assigns nothing
+//@   ensures undef: res0 == UndefinedValue && res1 == nil
+
+// ---------------------------------------------------------------------------
+// conversions (docs/runtime-types.md conversion table) — C10, used by C15
+// ---------------------------------------------------------------------------
+
+//@ func ToInt
+//@   props C10 C15
+//@   assigns nothing
+//@   ensures from_int: is(o, *Int) ==> ok && v == int(o.(*Int).Value)
+//@   ensures from_float: is(o, *Float) ==> ok && v == int(o.(*Float).Value)
+//@   ensures from_char: is(o, *Char) ==> ok && v == int(o.(*Char).Value)
+//@   ensures from_bool: is(o, *Bool) ==> ok && v == ite(o == TrueValue, 1, 0)
+//@   ensures from_string_fail: is(o, *String) && !ok ==> v == 0
+//@   ensures none: !is(o, *Int) && !is(o, *Float) && !is(o, *Char) && !is(o, *Bool) && !is(o, *String) ==> !ok && v == 0
+
+//@ func ToInt64
+//@   props C10 C15
+//@   assigns nothing
+//@   ensures from_int: is(o, *Int) ==> ok && v == o.(*Int).Value
+//@   ensures from_float: is(o, *Float) ==> ok && v == int64(o.(*Float).Value)
+//@   ensures from_char: is(o, *Char) ==> ok && v == int64(o.(*Char).Value)
+//@   ensures from_bool: is(o, *Bool) ==> ok && v == ite(o == TrueValue, 1, 0)
+//@   ensures from_string_fail: is(o, *String) && !ok ==> v == 0
+//@   ensures none: !is(o, *Int) && !is(o, *Float) && !is(o, *Char) && !is(o, *Bool) && !is(o, *String) ==> !ok && v == 0
+
+//@ func ToFloat64
+//@   props C10 C15
+//@   assigns nothing
+//@   ensures from_int: is(o, *Int) ==> ok && v == float64(o.(*Int).Value)
+//@   ensures from_float: is(o, *Float) && !spec.isnan(o.(*Float).Value) ==> ok && v == o.(*Float).Value
+//@   ensures none: !is(o, *Int) && !is(o, *Float) && !is(o, *String) ==> !ok && v == 0.0
+
+//@ func ToRune
+//@   props C10 C15
+//@   assigns nothing
+//@   ensures from_int: is(o, *Int) ==> ok && v == rune(o.(*Int).Value)
+//@   ensures from_char: is(o, *Char) ==> ok && v == o.(*Char).Value
+//@   ensures none: !is(o, *Int) && !is(o, *Char) ==> !ok && v == 0
+
+//@ func ToBool
+//@   props C10 C15
+//@   requires o != nil
+//@   assigns nothing
+//@   ensures always: ok
+//@   ensures truthy: spec.known(view(o)) ==> v == !spec.falsy(view(o))
+
+//@ func ToString
+//@   props C10 C15
+//@   requires o != nil
+//@   assigns nothing
+//@   ensures undefined: o == UndefinedValue ==> !ok && v == ""
+//@   ensures from_string: is(o, *String) ==> ok && v == o.(*String).Value
+//@   ensures other: o != UndefinedValue ==> ok
+
+//@ func ToByteSlice
+//@   props C10 C15
+//@   ensures from_bytes: is(o, *Bytes) ==> ok && sameslice(v, o.(*Bytes).Value)
+//@   ensures from_string: is(o, *String) ==> ok && len(v) == len(o.(*String).Value)
+//@   ensures none: !is(o, *Bytes) && !is(o, *String) ==> !ok && v == nil
+
+//@ func ToTime
+//@   props C10 C15
+//@   assigns nothing
+//@   ensures from_time: is(o, *Time) ==> ok && v == o.(*Time).Value
+//@   ensures from_int: is(o, *Int) ==> ok
+//@   ensures none: !is(o, *Time) && !is(o, *Int) ==> !ok
